@@ -81,6 +81,14 @@ func (g *Gen) verifyFunction(fn *ssa.Function, sp *FuncSpec) *FnCtx {
 		fr.bindAddr = append(fr.bindAddr, &Addr{Kind: aCell, Obj: v.S})
 		fc.define(sx(">", v.S, "0"))
 	}
+	// each free variable is the cell of a different captured variable
+	if len(fr.bindings) > 1 {
+		var cs []string
+		for _, v := range fr.bindings {
+			cs = append(cs, v.S)
+		}
+		fc.define(sx("distinct", cs...))
+	}
 	// requires (evaluated in the caller-visible entry state, before entry ghost assignments)
 	env := fr.specEnv(entry, nil, nil)
 	env.old = entry
@@ -91,7 +99,7 @@ func (g *Gen) verifyFunction(fn *ssa.Function, sp *FuncSpec) *FnCtx {
 		}
 		f := env.bool(c.Expr)
 		reqs = append(reqs, f)
-		fc.assume(f, "precondition "+c.Text)
+		fc.assumeC(f, "precondition "+c.Text, c, sp.Name)
 	}
 	for _, c := range fc.globalInvs() {
 		fc.assume(env.bool(c.Expr), "global invariant "+c.Site+" on entry")
@@ -314,6 +322,65 @@ func (g *Gen) verifyFunction(fn *ssa.Function, sp *FuncSpec) *FnCtx {
 			}
 		}
 	}
+	// process-wide state: the package-level variables the body (with the callees it is verified together with) touches
+	// are the declared ones, and the read-only ones are not assigned
+	if len(fc.g.specs.PkgState) > 0 {
+		acc, wr := fc.g.pkgStateAccess(fn)
+		var bad []string
+		for n := range acc {
+			k, ok := fc.g.specs.PkgState[n]
+			if !ok {
+				if fc.g.autoReadonly(n) {
+					continue
+				}
+				bad = append(bad, n+" (undeclared)")
+			} else if k == "readonly" && wr[n] {
+				bad = append(bad, n+" (assigned, declared readonly)")
+			}
+		}
+		// a root of a cone answers for every function reachable from it, under contract or not
+		for t, roots := range fc.g.specs.Cones {
+			for _, r := range roots {
+				if r != sp.Name {
+					continue
+				}
+				cacc, cwr, where := fc.g.coneAccess(t)
+				var cbad []string
+				for n := range cacc {
+					k, ok := fc.g.specs.PkgState[n]
+					if !ok {
+						if fc.g.autoReadonly(n) {
+							continue
+						}
+						cbad = append(cbad, n+" (undeclared, in "+where[n]+")")
+					} else if k == "readonly" && cwr[n] {
+						cbad = append(cbad, n+" (assigned, declared readonly)")
+					}
+				}
+				sort.Strings(cbad)
+				cg := "true"
+				if len(cbad) > 0 {
+					cg = "false"
+				}
+				fc.addObligAt(&Oblig{Name: sp.Name + "/frame:pkgstate-cone:" + t, Kind: "frame", Tags: []string{t}, goal: cg,
+					Text: fmt.Sprintf("package-level variables touched by the %d functions reachable from here are declared process state; offending: %s", len(fc.g.coneFns[t]), strings.Join(cbad, " "))}, nil, 1<<30)
+			}
+		}
+		sort.Strings(bad)
+		goal := "true"
+		if len(bad) > 0 {
+			goal = "false"
+		}
+		tg := sp.allTags()
+		for t := range fc.g.specs.Cones {
+			if fc.g.inCone(t, fnName(fn)) && !hasTag(tg, t) {
+				tg = append(tg, t)
+			}
+		}
+		sort.Strings(tg)
+		fc.addObligAt(&Oblig{Name: sp.Name + "/frame:pkgstate", Kind: "frame", Tags: tg, goal: goal,
+			Text: "package-level variables touched are declared process state (pkgstate); offending: " + strings.Join(bad, " ")}, nil, 1<<30)
+	}
 	// loops carrying a failed-call flag: the flag must be false when the loop head is reached again
 	for _, c := range sp.Props {
 		for _, li := range fr.loops {
@@ -373,7 +440,7 @@ func (sp *FuncSpec) allTags() []string {
 	for _, t := range sp.Tags {
 		set[t] = true
 	}
-	for _, cs := range [][]*Clause{sp.Requires, sp.Ensures, sp.Invs, sp.Asserts, sp.Props, sp.Tols, sp.Only} {
+	for _, cs := range [][]*Clause{sp.Requires, sp.Ensures, sp.Invs, sp.Asserts, sp.Props, sp.Tols, sp.Only, sp.Steps} {
 		for _, c := range cs {
 			for _, t := range c.Tags {
 				set[t] = true
@@ -616,6 +683,32 @@ func (fc *FnCtx) buildQuery(o *Oblig) string {
 	}
 	sb.WriteString("(check-sat)\n(get-model)\n")
 	return sb.String()
+}
+
+// coreQuery: the obligation's query with every contract-derived assumption named, for unsat-core extraction.
+func (fc *FnCtx) coreQuery(o *Oblig) (string, map[string]*Assume) {
+	q := fc.buildQuery(o)
+	names := map[string]*Assume{}
+	byF := map[string]*Assume{}
+	for i := range fc.assumes {
+		a := &fc.assumes[i]
+		if a.cl != nil {
+			byF["(assert "+a.f+")"] = a
+		}
+	}
+	lines := strings.Split(q, "\n")
+	n := 0
+	for i, l := range lines {
+		if a, ok := byF[l]; ok {
+			n++
+			nm := fmt.Sprintf("dep!%d", n)
+			names[nm] = a
+			lines[i] = "(assert (! " + a.f + " :named " + nm + "))"
+		}
+	}
+	q = strings.Join(lines, "\n")
+	q = strings.Replace(q, "(check-sat)\n(get-model)\n", "(check-sat)\n(get-unsat-core)\n", 1)
+	return "(set-option :produce-unsat-cores true)\n(set-option :smt.core.minimize true)\n" + q, names
 }
 
 func (g *Gen) discharge(fcs []*FnCtx, filter func(*Oblig) bool) {
